@@ -502,3 +502,104 @@ func sampleTable(c *Check, t *MergeTable, maxRows int) {
 	}
 	c.Tables[t.Name] = map[string]any{"paths": len(t.Paths), "distinct_rows_shown": len(rows), "rows": rows}
 }
+
+// ruleCleanTable (C04-R2, C10-R2b, C11-R2): T-CLEAN.
+func ruleCleanTable(c *Check, rule string) {
+	t := BuildMergeTable(c, "syncer.(*NativeIterator).Clean")
+	if t == nil {
+		return
+	}
+	u := buildUniverse(t, false)
+	D := uint64(100)
+	n, bad := 0, 0
+	for _, pad := range []bool{false, true} {
+		cfg := MCfg{DefTS: D, Pad: pad}
+		for _, st := range u.Stored {
+			if !st.Present || st.TS >= D {
+				continue
+			}
+			o, err := t.Apply(st, In{FV: 3}, cfg)
+			if err != nil {
+				c.Undecided(rule, t.Name+"/adequacy", "the clean decision uses a quantity the rule has no role for: "+err.Error(), c.P.Pos(t.Fn.Pos()))
+				return
+			}
+			n++
+			if st.Del {
+				if o.Kind != "KEEP" {
+					bad++
+					c.Bad(rule, fmt.Sprintf("%s/marker-kept:%v", t.Name, st), fmt.Sprintf("an existing deletion marker %v is not kept as is (outcome %s %v): it would be re-stamped on every capture pass", st, o.Kind, o.Ver), c.P.InstrPos(t.Paths[max(o.Path, 0)].EndPos), nil)
+				}
+				continue
+			}
+			want := Ver{Present: true, TS: D, Del: true, Val: ""}
+			if o.Kind != "TAKE" || o.Ver != want {
+				bad++
+				c.Bad(rule, fmt.Sprintf("%s/live-becomes-marker:%v", t.Name, st), fmt.Sprintf("a live entry %v whose key disappeared from the application DBI yields %s %v; expected a deletion marker stamped with the detection time %v", st, o.Kind, o.Ver, want), c.P.InstrPos(t.Paths[max(o.Path, 0)].EndPos), nil)
+			}
+		}
+	}
+	c.Evaluations += n
+	if bad == 0 {
+		c.Ok(rule, t.Name+"/table", fmt.Sprintf("%d cells: a live shadow entry whose key is gone becomes (detection time, deleted, empty value); an existing marker is returned unchanged (the parameter itself)", n), c.P.Pos(t.Fn.Pos()))
+	}
+}
+
+// rulePlainIterator: T-PLAIN (C03-R3 → F8, C04-R8, C11-R3).
+func rulePlainIterator(c *Check, ruleFlag, ruleProject string) {
+	name := "syncer.(*PlainIterator).Merge"
+	fn, paths := c.walkFn(ruleProject, name, WalkConfig{})
+	if paths == nil {
+		return
+	}
+	pos := c.P.Pos(fn.Pos())
+	it := param(fn, 0)
+	val := it + ".curKV.Value"
+	bad := 0
+	readsFlag := false
+	nNil, nVal := 0, 0
+	for i := range paths {
+		p := &paths[i]
+		for _, cd := range p.Conds() {
+			if strings.Contains(cd.Atom.String(), ".curKV.Flags") {
+				readsFlag = true
+			}
+		}
+		if p.End != "return" || !retIsNilErr(p) {
+			bad++
+			c.Bad(ruleProject, name+"/shape", "unexpected exit", c.pathPos(p), nil)
+			continue
+		}
+		l := p.State.RelOf("int", "len("+val+")", "const:0")
+		switch {
+		case p.Rets[0] == "nil":
+			nNil++
+			if l != EQ && !readsFlag {
+				bad++
+				c.Bad(ruleProject, name+"/delete-nonempty", "the projection deletes a key whose shadow value is not empty", c.pathPos(p), describe(c, p))
+			}
+		case p.Rets[0] == val:
+			nVal++
+		default:
+			bad++
+			c.Bad(ruleProject, name+"/value", "the projection writes "+p.Rets[0]+" instead of the shadow entry's application value", c.pathPos(p), nil)
+		}
+	}
+	if bad == 0 && nNil > 0 && nVal > 0 {
+		c.Ok(ruleProject, name+"/project", "a shadow entry with an empty application value (every deletion marker: addHeader clears the value of deleted entries) yields nil = delete the application key; any other entry yields exactly its application value", pos)
+	}
+	// Clean: keys absent from the shadow are removed from the application DBI
+	cn := "syncer.(*PlainIterator).Clean"
+	cf, cps := c.walkFn(ruleProject, cn, WalkConfig{})
+	if cps != nil {
+		okc := len(cps) == 1 && cps[0].End == "return" && cps[0].Rets[0] == "nil" && cps[0].Rets[1] == "nil"
+		c.Expect(okc, ruleProject, cn, "an application key without a shadow entry is deleted (nil)", "PlainIterator.Clean does not return nil (delete)", c.P.Pos(cf.Pos()))
+	}
+	if ruleFlag == "" {
+		return
+	}
+	if !readsFlag {
+		c.Bad(ruleFlag, name+"/delete-ignores-flag", "the projection decides between 'delete the application key' and 'write the value' from the length of the value alone and never reads the entry's deleted flag: a live entry with an empty value is indistinguishable from a deletion marker and its key is deleted from the application's DBI", pos, nil)
+	} else {
+		c.Ok(ruleFlag, name+"/delete-ignores-flag", "the projection's delete decision reads the entry's deleted flag", pos)
+	}
+}
